@@ -151,17 +151,19 @@ TE46 == Fill(60, 16) \o <<0>> \o Fill(61, 4) \o <<0>> \o Fill(62, 4) \o <<0>> \o
 TE80 == Fill(60, 16) \o <<1>> \o Fill(64, 16) \o SubSeq(TE46, 17, 46) \o <<0>> \o Fill(65, 16)
 NV1 == <<97, 32, 83, 84, 82, 73, 78, 71, 32, 82, 87, 32, 83, 86, 32, 98>>                  \* "a STRING RW SV b"
 NV2 == <<110, 32, 83, 51, 50, 32, 82, 32, 83, 32, 53, 10>> \o <<109, 32, 85, 51, 50, 32, 82, 87, 32, 68, 83, 32, 54>>  \* "n S32 R S 5\nm U32 RW DS 6"
+\* variant 4: terminated strings at / beyond a 256-byte block boundary (printable ASCII, no NUL, no newline)
+Long(n) == [j \in 1..n |-> 97 + (j % 26)]
 Variant(nm, i, v, w) ==
   CASE nm = "State" -> (CASE v = 1 -> <<18>> [] v = 2 -> <<0>> [] OTHER -> <<244>>)
     [] nm = "Material" -> (CASE v = 1 -> <<3>> [] v = 2 -> <<2>> [] OTHER -> <<255>>)
     [] nm = "ScratchPad" -> (CASE v = 1 -> <<7>> [] v = 2 -> <<>> [] OTHER -> <<0, 255, 0>>)
-    [] nm = "Text" -> (CASE v = 1 -> <<72, 105>> [] v = 2 -> <<>> [] OTHER -> <<195, 169>>)
-    [] nm = "MediaURL" -> (CASE v = 1 -> <<104>> [] v = 2 -> <<>> [] OTHER -> <<97, 47, 98>>)
+    [] nm = "Text" -> (CASE v = 1 -> <<72, 105>> [] v = 2 -> <<>> [] v = 3 -> <<195, 169>> [] OTHER -> Long(256))
+    [] nm = "MediaURL" -> (CASE v = 1 -> <<104>> [] v = 2 -> <<>> [] v = 3 -> <<97, 47, 98>> [] OTHER -> Long(257))
     [] nm = "PSBlock" -> PSys68 \o PData18
     [] nm = "ExtraParams" -> (CASE v = 1 -> <<0>>
                                 [] v = 2 -> <<1, 32, 0, 16, 0, 0, 0>> \o Fill(52, 16)
                                 [] OTHER -> <<2, 112, 0, 4, 0, 0, 0, 1, 0, 0, 0, 48, 0, 17, 0, 0, 0>> \o Fill(53, 16) \o <<5>>)
-    [] nm = "NameValue" -> (IF v = 2 THEN NV2 ELSE NV1)
+    [] nm = "NameValue" -> (CASE v = 2 -> NV2 [] v = 4 -> NV1 \o Long(300) [] OTHER -> NV1)
     [] nm = "TextureEntry" -> (CASE v = 1 -> TE46 [] v = 2 -> <<>> [] OTHER -> TE80)
     [] nm = "TextureAnim" -> <<3, 255, 1, 1>> \o Fill(54, 12)
     [] nm = "PSBlockNew" -> (CASE v = 1 -> LE32(68) \o PSys68 \o LE32(18) \o PData18
@@ -174,7 +176,7 @@ Varied == {"State", "Material", "ScratchPad", "Text", "MediaURL", "ExtraParams",
 CONSTANTS FlagWords,   \* set of low-11-bit flag words to enumerate
           HighBits,    \* set of values (multiples of 2048, < 65536) OR-ed into the flag word: must not matter
           PCodes,      \* set of object kinds (PCode bytes)
-          Variants,    \* set of content variants (subset of 1..3)
+          Variants,    \* set of content variants (subset of 1..4)
           Product      \* TRUE: every varied field picks its variant independently; FALSE: one variant per payload
 VARIABLES flags, hi, pcode, v0, idx, buf, emitted
 vars == <<flags, hi, pcode, v0, idx, buf, emitted>>
